@@ -431,6 +431,9 @@ def stdAdapt {σ α : Type} (next : σ → Option (Res α × σ)) (fuel : Nat) (
   | "nthcount" => consume s0 fun _ => .ok (.inr (Iter.countD next fuel (Iter.nthD next arg s0).2))
   | "nthlast" => consume s0 fun _ => opt (Iter.lastD next fuel (Iter.nthD next arg s0).2)
   | "nthhint" => consume s0 fun _ => .ok (.inr 1)
+  -- optional capabilities, when a tree provides them: `rev()` yields the remaining items backwards, `len()` their number
+  | "rev" => items (Iter.collect next fuel (Iter.advance next arg s0)).reverse
+  | "len" => consume s0 fun _ => .ok (.inr (Iter.countD next fuel (Iter.advance next arg s0)))
   | _ => .ok (.inl [])
 
 def ordStr : Ordering → String
@@ -632,7 +635,7 @@ def kmerQuery (x : Ctx) : Q String := do
       let pr ← qlift next
       let v ← qlift num
       let s ← qlift parseS; let bs ← qr (evalS x s)
-      if pr ≠ "slice" ∧ pr ≠ "refslice" ∧ pr ≠ "arr" ∧ pr ≠ "refarr" then throw (.badOp "pairing")
+      if ¬ ["slice", "refslice", "arr", "refarr", "rslice", "rrefslice", "rseq"].contains pr then throw (.badOp "pairing")
       if (pr = "arr" ∨ pr = "refarr") ∧ (Seq.len c bs ≠ k ∨ k * c.width > 64) then throw (.badOp "arr length")
       let r ← qres (if pr = "arr" ∨ pr = "refarr" then SeqArr.eqKmer x.p c k st (v % md) (SeqArr.ofBits 1 c bs)
                     else Kmer.eqSlice x.p c k st (v % md) bs)
